@@ -39,10 +39,13 @@ class World:
         os.makedirs(self.mdir)
         os.makedirs(self.ldir)
         self.clock = 1_500_000_000
+        self.dir_mtime = {}
         self.k_model, self.k_lib, self.k_extra = 2, 3, None
         self.opts = {"library_folders": [self.ldir]}
         if rng.random() < 0.5:
             self.opts["detect_aliases"] = True
+        if rng.random() < 0.5:
+            self.opts["expand_mx"] = True      # precondition of eliminable_variable_expression
         self.version = "1.0.verif"
         self.ops = []
         self.dirty_since_transfer = True
@@ -53,9 +56,20 @@ class World:
         self.clock += 1000
         return self.clock
 
-    def touch(self, path):
+    def touch(self, path, created=None):
+        """logical mtime for the file; a directory's mtime changes only when an entry is created in it (as on a
+        real file system: rewriting a file in place leaves the directory's mtime alone)."""
         t = self.tick()
         os.utime(path, (t, t))
+        d = os.path.dirname(path)
+        if created or d not in self.dir_mtime:
+            self.dir_mtime[d] = t
+        self.fix_dirs()
+
+    def fix_dirs(self):
+        for d, t in self.dir_mtime.items():
+            if os.path.isdir(d):
+                os.utime(d, (t, t))
 
     def model_text(self):
         extra = "  Extra e;\n" if self.k_extra is not None else ""
@@ -63,28 +77,33 @@ class World:
         # every option that can be flipped has something to act on, so that a stale cache is observable
         return ("model M\n  Real x(start = %d);\n  Real y(max = 2 * p + 1);\n  Real w;\n  parameter Real p = %d;\n"
                 "  parameter Real q = 2 * p;\n  constant Real cc = 3;\n  constant Real c2 = 6;\n"
-                "  Real al;\n  Real da;\n  Real kc;\n  Real fs;\n  Real v[2];\n  LibComp c;\n%s"
+                "  Real al;\n  Real da;\n  Real kc;\n  Real fs;\n  Real v[2];\n  Real _el;\n  LibComp c;\n%s"
                 "equation\n  der(x) = -%d * x + p + q;\n  y = c.z + x + cc + c2;\n  al = y;\n  da = der(x);\n  kc = 5;\n"
-                "  0 = 2 * (fs - x);\n  v = {x, y};\n%send M;\n" % (self.k_model, self.k_model + 1, extra, self.k_model, eq_extra))
+                "  0 = 2 * (fs - x);\n  v = {x, y};\n  _el = 3 * x + 1;\n%send M;\n" % (self.k_model, self.k_model + 1, extra, self.k_model, eq_extra))
 
     def write_model(self):
         p = os.path.join(self.mdir, "M.mo")
+        new = not os.path.exists(p)
         with open(p, "w") as f:
             f.write(self.model_text())
-        self.touch(p)
+        self.touch(p, new)
 
     def write_lib(self):
         p = os.path.join(self.ldir, "LibComp.mo")
+        new = not os.path.exists(p)
         with open(p, "w") as f:
             f.write("model LibComp\n  Real z;\nequation\n  z = %d * time;\nend LibComp;\n" % self.k_lib)
-        self.touch(p)
+        self.touch(p, new)
 
     def write_extra(self):
         p = os.path.join(self.ldir, "sub", "Extra.mo")
-        os.makedirs(os.path.dirname(p), exist_ok=True)
+        new = not os.path.exists(p)
+        if new:
+            os.makedirs(os.path.dirname(p), exist_ok=True)
+            self.dir_mtime[self.ldir] = self.clock + 1     # the sub-folder is a new entry of the library folder
         with open(p, "w") as f:
             f.write("model Extra\n  Real q;\nequation\n  q = %d;\nend Extra;\n" % self.k_extra)
-        self.touch(p)
+        self.touch(p, new)
 
     def stamp_cache_files(self):
         """the cache gets the current logical time: every later edit is strictly newer."""
@@ -92,6 +111,8 @@ class World:
         for f in os.listdir(self.mdir):
             if not f.endswith(".mo"):
                 os.utime(os.path.join(self.mdir, f), (t, t))
+        self.dir_mtime[self.mdir] = t       # the cache file was (re)created in the model folder
+        self.fix_dirs()
 
     def set_version(self):
         import pymoca
@@ -104,19 +125,28 @@ class World:
         k = r.random()
         if force_transfer or k < 0.4:
             return self.op_transfer("cache")
-        if k < 0.55:
+        if k < 0.52:
             self.k_model += r.randint(1, 3)
             self.write_model()
             self.ops.append(["edit-model-file", self.k_model])
-        elif k < 0.7:
+        elif k < 0.64:
             self.k_lib += r.randint(1, 3)
             self.write_lib()
             self.ops.append(["edit-library-file", self.k_lib])
         elif k < 0.78:
+            first = self.k_extra is None
             self.k_extra = (self.k_extra or 4) + r.randint(1, 3)
             self.write_extra()
-            self.write_model()
-            self.ops.append(["add-or-edit-library-file-in-subfolder", self.k_extra])
+            if first:
+                self.write_model()          # the model starts to use the new class
+            # a later edit rewrites only the file in the sub-folder, in place: neither the model file nor any
+            # directory gets a new modification time
+            self.ops.append(["add-library-file-in-subfolder" if first else "edit-library-file-in-subfolder", self.k_extra])
+        elif k < 0.82 and self.opts.get("expand_mx"):
+            # differs from the cached options only in a value that is None by default
+            cur = self.opts.get("eliminable_variable_expression")
+            self.opts["eliminable_variable_expression"] = None if cur else r"_\w+"
+            self.ops.append(["option-change", "eliminable_variable_expression", self.opts["eliminable_variable_expression"]])
         elif k < 0.92:
             o = r.choice(OPTION_FLIPS)
             from pymoca.backends.casadi._options import _get_default_options
